@@ -29,6 +29,8 @@ type Conn = Connection<ScriptSocket>;
 enum Meth {
     #[serde(rename = "a.Get")]
     Get { id: u32 },
+    #[serde(rename = "a.Put")]
+    Put { id: u32, data: String },
 }
 
 #[derive(Debug, Deserialize)]
@@ -665,9 +667,142 @@ impl Harness for ProxyStreamH {
     }
 }
 
+// ------------------------------------------------------------------------------------------------
+// large chains: what `send()` hands to the transport is far beyond the buffer's growth step
+
+const LARGE_CHAIN_FORMS: [&str; 3] = ["three calls, the middle one large", "many calls of about 1000 bytes", "one large call first, then small ones"];
+
+fn large_chain_totals(tier: Tier) -> Vec<usize> {
+    let mut v = vec![16_383, 65_535, 65_536, 65_537, 70_000, 131_073, 200_000];
+    if tier == Tier::Thorough {
+        v.extend([262_144, 524_289, 1_048_576, 3_000_000]);
+    }
+    v
+}
+
+/// A chain whose calls add up to about `total` bytes, kinds rotating plain / oneway / more: one
+/// write with all of them, then exactly the owed replies, then the end, the next exchange's frame
+/// untouched.
+fn large_chain_case(totals: &[usize], idx: u64, sink: &mut xplore::Sink<'_>) {
+    let form = (idx % LARGE_CHAIN_FORMS.len() as u64) as usize;
+    let total = totals[(idx / LARGE_CHAIN_FORMS.len() as u64) as usize];
+    let case = || json!({"group": "large-chain", "form": LARGE_CHAIN_FORMS[form], "about_bytes": total, "index": idx});
+    let data = |n: usize, salt: usize| payload(n, salt);
+    let mut calls: Vec<Call<Meth>> = Vec::new();
+    match form {
+        0 => {
+            calls.push(Call::new(Meth::Get { id: 0 }));
+            calls.push(Call::new(Meth::Put { id: 1, data: data(total, 1) }).set_more(true));
+            calls.push(Call::new(Meth::Get { id: 2 }).set_oneway(true));
+        }
+        1 => {
+            for i in 0..(total / 1000).max(2) {
+                let c = Call::new(Meth::Put { id: i as u32, data: data(950 + i % 7, i) });
+                calls.push(match i % 3 {
+                    0 => c,
+                    1 => c.set_oneway(true),
+                    _ => c.set_more(true),
+                });
+            }
+        }
+        _ => {
+            calls.push(Call::new(Meth::Put { id: 0, data: data(total, 3) }));
+            for i in 1..6 {
+                calls.push(Call::new(Meth::Get { id: i }).set_oneway(i % 2 == 0));
+            }
+        }
+    }
+    let mut exp = Vec::new();
+    for c in &calls {
+        exp.extend_from_slice(&serde_json::to_vec(c).unwrap());
+        exp.push(0);
+    }
+    if exp.len() > 65536 {
+        sink.goal("chain-larger-than-64KiB");
+    }
+    // replies: one per call that is owed any; a `more` call gets one continuing reply first
+    let mut frames: Vec<FrameSpec> = Vec::new();
+    let mut seq = 0;
+    for c in &calls {
+        if c.oneway() {
+            continue;
+        }
+        if c.more() {
+            seq += 1;
+            frames.push(success_frame(seq, 8, Some(true)));
+        }
+        seq += 1;
+        frames.push(success_frame(seq, 8, if c.more() { Some(false) } else { None }));
+    }
+    let owed = frames.len();
+    frames.push(success_frame(9999, 8, None));
+    let wire = Wire::new(0, None);
+    for f in &frames {
+        wire.arrive(&f.bytes);
+        wire.arrive(&[0]);
+    }
+    let mut conn: Conn = wire.connection();
+    let r: Result<(), (String, String)> = (|| {
+        let mut chain = conn.chain_call::<Meth, R<'_>, E<'_>>(&calls[0]).map_err(|e| ("chain:call-refused".to_string(), format!("{e:?}")))?;
+        for c in &calls[1..] {
+            chain = chain.append(c).map_err(|e| ("chain:call-refused".to_string(), format!("{e:?}")))?;
+        }
+        let stream = complete(chain.send()).map_err(|e| ("chain:send-failed".to_string(), format!("{e:?}")))?;
+        {
+            let w = wire.0.borrow();
+            if w.writes.len() != 1 {
+                return Err(("chain:calls-not-in-one-write".into(), format!("{} calls ({} bytes) reached the transport in {} writes of {:?} bytes", calls.len(), exp.len(), w.writes.len(), w.writes.iter().map(|x| x.len()).collect::<Vec<_>>())));
+            }
+            if w.writes[0] != exp {
+                return Err(("chain:wrong-bytes-written".into(), format!("{} calls: the one write has {} bytes, expected {}, first difference at {:?}", calls.len(), w.writes[0].len(), exp.len(), w.writes[0].iter().zip(exp.iter()).position(|(a, b)| a != b))));
+            }
+        }
+        let mut stream = std::pin::pin!(stream);
+        let mut task = Task::new();
+        let mut yielded = 0;
+        loop {
+            match task.poll_with(|c| stream.as_mut().poll_next(c)) {
+                Poll::Pending => return Err(("chain:stalled-with-all-bytes-delivered".into(), format!("after {yielded} of {owed} items"))),
+                Poll::Ready(None) => break,
+                Poll::Ready(Some(it)) => {
+                    let got = render(&it);
+                    if yielded >= owed {
+                        return Err(("chain:stream-yields-more-than-owed".into(), format!("item #{yielded}: {got}")));
+                    }
+                    if got != frames[yielded].expect {
+                        return Err(("chain:wrong-item".into(), format!("item #{yielded}: {got}, expected {}", frames[yielded].expect)));
+                    }
+                    yielded += 1;
+                }
+            }
+        }
+        if yielded < owed {
+            return Err(("chain:stream-ended-early".into(), format!("{yielded} of {owed}")));
+        }
+        Ok(())
+    })();
+    if let Err((c, d)) = r {
+        sink.fail(c, d, case());
+        return;
+    }
+    match complete(conn.receive_reply::<R<'_>, E<'_>>()) {
+        Ok(Ok(r)) if r.parameters().map(|p| p.n) == Some(9999) => {}
+        other => {
+            sink.fail("chain:trailing-frame-damaged", format!("the next exchange's reply came back as {other:?}"), case());
+            return;
+        }
+    }
+    if sink.wants_sample() {
+        sink.sample(case);
+    }
+    sink.steps(calls.len() as u64 + owed as u64);
+    sink.state(H64::new().u(calls.len() as u64).get());
+    sink.pass(H64::new().u(idx).u(exp.len() as u64).get());
+}
+
 pub fn run_c06(tier: Tier) -> i32 {
     let mut rep = Report::new("C06", tier.name());
-    rep.rule = "DFS by re-execution over: chain in {plain, oneway, more, oneway+more}^1..N x per non-oneway call a reply script (success | declared error | a final reply that does not decode - wrong-shaped parameters or an error nobody declares; for `more` 0..2 continuing replies before that final reply) x trailing unrelated frame {absent, present} x arrival chunking of the reply bytes (cut candidates: before the first byte, after the first byte / in the middle / before the NUL of every frame, between frames; phase `inter` takes every subset of the inter-frame cuts, the other cuts and spurious Pending answers cost one deviation each). Outcomes are distinct (item sequence, number of transport polls)".into();
+    rep.rule = "DFS by re-execution over: chain in {plain, oneway, more, oneway+more}^1..N x per non-oneway call a reply script (success | declared error | a final reply that does not decode - wrong-shaped parameters or an error nobody declares; for `more` 0..2 continuing replies before that final reply) x trailing unrelated frame {absent, present} x arrival chunking of the reply bytes (cut candidates: before the first byte, after the first byte / in the middle / before the NUL of every frame, between frames; phase `inter` takes every subset of the inter-frame cuts, the other cuts and spurious Pending answers cost one deviation each). Outcomes are distinct (item sequence, number of transport polls). Phase large-chains: chains adding up to 16 KiB .. 200 KB (thorough: 3 MB), built in three ways (one large call among small ones, hundreds of 1000-byte calls, a large call first), kinds rotating plain / oneway / more: one write, the owed replies, the next exchange untouched".into();
     rep.assumptions = vec!["server reply scripts conform to the protocol (one reply per call; continues only on replies to `more` calls)".into(), "the stream is polled only when its waker fired or new bytes were delivered".into(), "after a reply that does not decode the stream may end (what remains of the exchange is then not judged) or carry on; in both cases it must not take or wait for more frames than the chain is owed".into()];
     for g in [
         "chain-of-only-oneway-calls",
@@ -699,6 +834,10 @@ pub fn run_c06(tier: Tier) -> i32 {
         let cfg = Config { budget, max_wall: wall, ..Default::default() };
         rep.add(explore(name, h.config(), &h, &cfg));
     }
+    rep.require_goal("chain-larger-than-64KiB");
+    let totals = large_chain_totals(tier);
+    let cfg = Config { max_wall: wall, ..Default::default() };
+    rep.add(xplore::sweep("large-chains", (totals.len() * LARGE_CHAIN_FORMS.len()) as u64, &cfg, |i, s| large_chain_case(&totals, i, s)));
     rep.finish()
 }
 
@@ -734,6 +873,15 @@ pub fn run_c11(tier: Tier) -> i32 {
 }
 
 pub fn replay(v: &Value) -> Replayed {
+    if v["case"]["group"] == "large-chain" {
+        let idx = v["case"]["index"].as_u64().unwrap_or(0);
+        let totals = large_chain_totals(Tier::Thorough);
+        let st = xplore::sweep_one("large-chains", idx, &Config { threads: 1, ..Default::default() }, |i, s| large_chain_case(&totals, i, s));
+        return match st.violations.into_iter().next() {
+            Some((class, rec)) => Replayed::Fail { trace: vec![format!("case {}", v["case"])], class, detail: rec.detail },
+            None => Replayed::Pass(vec![format!("case {}", v["case"])]),
+        };
+    }
     if v["harness"]["proxy_stream"] == true {
         let h = ProxyStreamH { max_replies: v["harness"]["max_replies"].as_u64().unwrap_or(3) as usize, sizes: v["harness"]["sizes"].as_array().map(|a| a.iter().map(|x| x.as_u64().unwrap_or(20) as usize).collect()).unwrap_or_else(|| vec![20, 300]) };
         return replay_dfs(&h, v);
